@@ -71,6 +71,35 @@ func (r *plainRanger) ProvidesIndex() bool { return false }
 
 type stNonZero struct{ A int }
 
+// feedRanger is a custom Ranger whose own Go kind is chan: the Ranger interface must win over the
+// built-in channel ranger (its elements come out transformed).
+type feedRanger chan string
+
+func (f feedRanger) Range() (reflect.Value, reflect.Value, bool) {
+	v, ok := <-f
+	if !ok {
+		return reflect.Value{}, reflect.Value{}, true
+	}
+	return reflect.Value{}, reflect.ValueOf("F:" + v), false
+}
+func (f feedRanger) ProvidesIndex() bool { return false }
+
+// everyOther is a custom Ranger whose own Go kind is slice; the cursor lives in element 0.
+type everyOther []string
+
+func (e everyOther) Range() (reflect.Value, reflect.Value, bool) {
+	// e[0] holds the cursor as a decimal string; yields e[1], e[3], e[5], ... with their position
+	var cur int
+	fmt.Sscan(e[0], &cur)
+	i := 1 + 2*cur
+	if i >= len(e) {
+		return reflect.Value{}, reflect.Value{}, true
+	}
+	e[0] = fmt.Sprint(cur + 1)
+	return reflect.ValueOf(cur), reflect.ValueOf("E:" + e[i]), false
+}
+func (e everyOther) ProvidesIndex() bool { return true }
+
 // ---- AST
 
 type c5node interface{}
@@ -99,6 +128,20 @@ type c5range struct {
 }
 type c5let struct{ name, val string }
 
+// c5iface: conditions that reach 'if' wrapped in an interface (elements of a []interface{} as '.'
+// and as a loop variable)
+type c5iface struct {
+	name string
+	vals []int // indices into ifaceVals
+	form int   // 0: {{range X}}{{if .}}, 2: {{range i, v := X}}{{if v}}
+	v    string
+}
+
+var ifaceVals = []struct {
+	v     interface{}
+	truth bool
+}{{false, false}, {0, false}, {"", false}, {nil, false}, {true, true}, {"x", true}, {1, true}, {0.0, false}, {0.5, true}, {[]int{}, true}, {uint8(0), false}}
+
 // c5mixed: one inner one-variable range node executed over values that differ in
 // ProvidesIndex() (an outer range over a list of rangeables)
 type c5mixed struct {
@@ -121,6 +164,7 @@ type c5gen struct {
 	vis     []string // variable names visible at the point being generated
 	nLet    int
 	mixed   []*c5mixed
+	ifaces  []*c5iface
 }
 
 var condTable = []c5cond{
@@ -132,6 +176,7 @@ var condTable = []c5cond{
 	{"not cT", false}, {"not zi", true}, {"pi > 3", true}, {"pi < 3", false}, {"cT && cF", false}, {"cF || pp", true},
 	{"hf", true}, {"nhf", true}, {"0.25", true}, {"tiny", true}, {"u8z", false}, {"u8", true}, {"i64z", false}, {"i64", true},
 	{"f32h", true}, {"f32z", false}, {"pi / 10", true}, {"1 - 0.5", true}, {"zi + 0.0", false}, {"not hf", false}, {"hf && cT", true},
+	{"pz", true}, {"pzs", true}, {"pfz", true}, {"pst0", true}, {"ppz", true},
 	{"zi == 0", true}, {`ns == "x"`, true}, {`zs != ""`, false}, {"len(fsl) > 0", true}, {"isset(np)", false}, {"isset(pp)", true},
 }
 
@@ -151,7 +196,7 @@ func (g *c5gen) newSubject() *subject {
 		return &subject{name: fmt.Sprintf("x%d", id), expr: fmt.Sprintf("x%d", id), kind: kind, index: true}
 	}
 	var s *subject
-	kinds := []string{"slice-string", "slice-int", "slice-iface", "array", "ints", "map1", "mapN", "ranger-idx", "ranger-plain", "ptr-slice"}
+	kinds := []string{"slice-string", "slice-int", "slice-iface", "array", "ints", "map1", "mapN", "ranger-idx", "ranger-plain", "ptr-slice", "ranger-chan-typed", "ranger-slice-typed"}
 	if g.useChan {
 		kinds = append(kinds, "chan", "chan", "chan")
 	}
@@ -206,6 +251,18 @@ func (g *c5gen) newSubject() *subject {
 		for i := 0; i < n; i++ {
 			s.elems = append(s.elems, elem{"", fmt.Sprintf("p%d_%d", id, i)})
 		}
+	case "ranger-chan-typed":
+		s = mk(k)
+		s.consumable, s.index = true, false
+		for i := 0; i < n; i++ {
+			s.elems = append(s.elems, elem{"", fmt.Sprintf("F:f%d_%d", id, i)})
+		}
+	case "ranger-slice-typed":
+		s = mk(k)
+		s.consumable, s.index = true, true
+		for i := 0; i < n; i++ {
+			s.elems = append(s.elems, elem{fmt.Sprint(i), fmt.Sprintf("E:y%d_%d", id, i)})
+		}
 	case "chan":
 		s = mk(k)
 		s.consumable, s.index = true, false
@@ -246,7 +303,7 @@ func (g *c5gen) stmt(depth int) c5node {
 		}
 		return 0
 	}
-	switch g.t.Weighted(2, 1, w(!deep, 3), w(!deep, 4), w(g.useTry && !deep, 1), w(g.useTry, 1), w(len(g.vis) > 0, 2), 1, w(!deep, 1)) {
+	switch g.t.Weighted(2, 1, w(!deep, 3), w(!deep, 4), w(g.useTry && !deep, 1), w(g.useTry, 1), w(len(g.vis) > 0, 2), 1, w(!deep, 1), 1) {
 	case 0:
 		return c5text{g.mark()}
 	case 1:
@@ -353,6 +410,16 @@ func (g *c5gen) stmt(depth int) c5node {
 		}
 		g.mixed = append(g.mixed, m)
 		return m
+	case 9:
+		f := &c5iface{name: fmt.Sprintf("ifc%d", len(g.ifaces)), form: 2 * g.t.Choose(2)}
+		g.nVar++
+		f.v = fmt.Sprintf("b%d", g.nVar)
+		n := g.t.Range(1, 5)
+		for i := 0; i < n; i++ {
+			f.vals = append(f.vals, g.t.Choose(len(ifaceVals)))
+		}
+		g.ifaces = append(g.ifaces, f)
+		return f
 	}
 	return c5text{g.mark()}
 }
@@ -372,6 +439,12 @@ func c5src(b *strings.Builder, ns []c5node) {
 			fmt.Fprintf(b, "{{%s := %q}}", n.name, n.val)
 		case *c5mixed:
 			fmt.Fprintf(b, "{{range %s}}{{range %s := .}}<{{%s}}>{{end}}|{{end}}", n.name, n.a, n.a)
+		case *c5iface:
+			if n.form == 0 {
+				fmt.Fprintf(b, "<if:{{range %s}}{{if .}}T{{else}}F{{end}}{{end}}>", n.name)
+			} else {
+				fmt.Fprintf(b, "<if:{{range _, %s := %s}}{{if %s}}T{{else}}F{{end}}{{end}}>", n.v, n.name, n.v)
+			}
 		case *c5if:
 			for i, c := range n.conds {
 				if i == 0 {
@@ -488,6 +561,17 @@ func (e *c5eval) run(b *strings.Builder, ns []c5node, ctx string) {
 			b.WriteString("<" + n.name + "=" + e.lookup(n.name) + ">")
 		case c5let:
 			e.frames[len(e.frames)-1][n.name] = n.val
+		case *c5iface:
+			b.WriteString("<if:")
+			for _, i := range n.vals {
+				e.ifs++
+				if ifaceVals[i].truth {
+					b.WriteString("T")
+				} else {
+					b.WriteString("F")
+				}
+			}
+			b.WriteString(">")
 		case *c5mixed:
 			for _, sub := range n.elems {
 				// custom Rangers are stateful: a second pass over the same list finds them spent
@@ -637,8 +721,15 @@ func canon(s string) string {
 }
 
 // c5vars builds the VarMap: condition values and fresh instances of every subject.
-func c5vars(subs []*subject, mixed []*c5mixed, p *Probes, chans *[]reflect.Value) jet.VarMap {
+func c5vars(subs []*subject, mixed []*c5mixed, ifaces []*c5iface, p *Probes, chans *[]reflect.Value) jet.VarMap {
 	vm := jet.VarMap{}
+	for _, f := range ifaces {
+		var list []interface{}
+		for _, i := range f.vals {
+			list = append(list, ifaceVals[i].v)
+		}
+		vm.Set(f.name, list)
+	}
 	for _, m := range mixed {
 		// a []jet.Ranger: elements are index-providing and index-less custom Rangers. (A Ranger inside
 		// a []interface{} is not recognised by jet - the Implements check looks at the static element
@@ -661,6 +752,9 @@ func c5vars(subs []*subject, mixed []*c5mixed, p *Probes, chans *[]reflect.Value
 	vm.Set("zs", "").Set("ns", "x").Set("s0", "0")
 	vm.Set("hf", 0.5).Set("nhf", -0.5).Set("tiny", 1e-9).Set("u8z", uint8(0)).Set("u8", uint8(3)).Set("i64z", int64(0)).Set("i64", int64(-7))
 	vm.Set("f32h", float32(0.5)).Set("f32z", float32(0))
+	zero, empty, no := 0, "", false
+	pzero := &zero
+	vm.Set("pz", &zero).Set("pzs", &empty).Set("pfz", &no).Set("pst0", &stNonZero{}).Set("ppz", &pzero)
 	var np *stNonZero
 	vm.Set("np", np).Set("pp", &stNonZero{A: 1})
 	var nm map[string]int
@@ -725,6 +819,19 @@ func c5vars(subs []*subject, mixed []*c5mixed, p *Probes, chans *[]reflect.Value
 				r.items = append(r.items, e.val)
 			}
 			vm.Set(s.name, r)
+		case "ranger-chan-typed":
+			ch := make(feedRanger, len(s.elems)+1)
+			for _, e := range s.elems {
+				ch <- strings.TrimPrefix(e.val, "F:")
+			}
+			close(ch)
+			vm.Set(s.name, ch)
+		case "ranger-slice-typed":
+			xs := everyOther{"0"}
+			for _, e := range s.elems {
+				xs = append(xs, strings.TrimPrefix(e.val, "E:"), "skipped")
+			}
+			vm.Set(s.name, xs)
 		case "chan":
 			ch := make(chan string)
 			vm.Set(s.name, ch)
@@ -797,7 +904,7 @@ func RunC05(env *sim.Env) {
 				w := &SimWriter{}
 				p := &Probes{W: w, FailAt: pl.failAt, Tag: "x"}
 				var chans []reflect.Value
-				vm := c5vars(g.subs, g.mixed, p, &chans)
+				vm := c5vars(g.subs, g.mixed, g.ifaces, p, &chans)
 				var xerr error
 				t0 := time.Now()
 				pc := sim.Guard(func() { xerr = tmpl.Execute(w, vm, "TOP") })
@@ -960,7 +1067,13 @@ func c5callsInTry(full []c5node) map[int]bool {
 }
 
 // c5classify names the kind of structural difference (finding key).
+var reIfSeg = regexp.MustCompile(`<if:[TF]*>`)
+
 func c5classify(prog []c5node, got, exp string) string {
+	// only the interface-wrapped condition segments differ
+	if got != exp && reIfSeg.ReplaceAllString(got, "") == reIfSeg.ReplaceAllString(exp, "") {
+		return "if:interface-wrapped-condition"
+	}
 	// crude but specific: find the innermost range/if whose markers differ in count
 	count := func(s, m string) int { return strings.Count(s, m) }
 	var key string
